@@ -484,15 +484,21 @@ def main():
     h_deep = [h for h in enum_histories(d_deep, ("A", "B"), 2) if len(h) == d_deep]   # one step deeper, two contents, two ids
     plan = []
     for fam in reps if not thorough else list(lmon.families()):
-        # the empty content exercises GeneralLoader code shared by all families: full depth on the DEEP families (and on all in
-        # thorough), one step shallower on the others
-        plan.append((fam, CFG_TIGHT, h_all if (thorough or fam in DEEP) else h_noempty, 2 if not thorough else 8))
-        if thorough or fam in DEEP:
-            plan.append((fam, CFG_LOOSE, h_small if not thorough else h_all, 2 if not thorough else 8))
-        if thorough:
-            plan.append((fam, CFG_MID, h_small, 2))
+        # the empty content exercises GeneralLoader code shared by all families: full depth on the DEEP families (and on every
+        # class representative in thorough), one step shallower on the others
+        full = (fam in DEEP) if not thorough else (fam in reps)
+        if full:
+            plan.append((fam, CFG_TIGHT, h_all, 2 if not thorough else 12))
+            plan.append((fam, CFG_LOOSE, h_small if not thorough else h_all, 2 if not thorough else 12))
+        elif not thorough:
+            plan.append((fam, CFG_TIGHT, h_noempty, 2))
+        else:
+            plan.append((fam, CFG_TIGHT, enum_histories(3), 2))
+            plan.append((fam, CFG_LOOSE, h_small, 4))
+        if thorough and fam in DEEP:
+            plan.append((fam, CFG_MID, h_small, 4))
     for fam in (DEEP[:1] if not thorough else DEEP):
-        for cfg in ([CFG_TIGHT] if not thorough else [CFG_TIGHT, CFG_MID2]):
+        for cfg in ([CFG_TIGHT] if not thorough or fam != DEEP[0] else [CFG_TIGHT, CFG_MID2]):
             plan.append((fam, cfg, h_deep, 8 if not thorough else 32))
     for fam, cfg, hs, parts in plan:
         for c in chunked(hs, parts):
